@@ -37,7 +37,7 @@ CONSTRUCT = ("seed_from_u64", "from_seed", "from_rng", "from_entropy")
 
 def roots(ctx, m):
     out = []
-    for f in ctx.prog.fns.values():
+    for f in ctx.prog.units():
         if f.crate.name == "bourse_de":
             if f.name in ("sim_runner", "market_sim_runner") and f.kind == "Fn":
                 out.append(f)
@@ -75,7 +75,7 @@ def run(ctx):
                     hits.append((f, c, why))
                     break
         # pointer -> integer casts
-        for blk in f.body.blocks:
+        for blk in q.body.blocks:
             for st in blk.stmts:
                 if st.k == "assign" and st.rv.k == "cast" and "ExposeProvenance" in st.rv.j.get("ck", "") and "Pointer" in st.rv.j.get("ck", ""):
                     if st.rv.j["ck"] == "PointerExposeProvenance":
@@ -92,7 +92,7 @@ def run(ctx):
 
     # ---------------------------------------------------------------- generator threading
     n_draw = 0
-    lib_fns = [f for f in ctx.prog.fns.values() if f.crate.name in ("bourse_de", "bourse")]
+    lib_fns = [f for f in ctx.prog.units() if f.crate.name in ("bourse_de", "bourse")]
     for f in lib_fns:
         q = m.q(f)
         for c in q.calls():
